@@ -134,40 +134,12 @@ impl Any {
     }
 }
 
-fn run(c: &Case) -> Outcome {
-    let mut o = Outcome::default();
-    let opts = HistOpts { envelope: true, record_out: true, quant32: false, stop_on_err: false };
-    let nthreads = (c.n_threads as usize).clamp(1, 16);
-    let insts: Vec<(Config, Signal, &Inst)> = c.instances.iter().map(|i| (i.cfg.sanitized().0, Signal::Noise { seed: i.seed, amp: 10f64.powi(i.amp_exp as i32) }, i)).collect();
-    o.class(format!("threads:{}", nthreads));
-    o.class(format!("instances:{}", insts.len()));
-    // reference: every instance alone, each on a thread of its own that has done nothing else
-    let mut reference = vec![];
-    for (cfg, sig, inst) in &insts {
-        let r: Result<Vec<Digest>, String> = std::thread::scope(|s| {
-            s.spawn(|| {
-                let mut a = Any::new(cfg.f32);
-                a.construct(cfg, &opts)?;
-                for (i, op) in inst.ops.iter().enumerate() {
-                    a.step(i, op, sig);
-                }
-                Ok(a.digests())
-            })
-            .join()
-            .unwrap_or_else(|_| Err("reference run panicked".to_string()))
-        });
-        match r {
-            Ok(d) => reference.push(d),
-            Err(e) => {
-                o.fail("construct-rejected", e);
-                return o;
-            }
-        }
-        o.class(format!("kind:{}", cfg.kind.name()));
-        if inst.amp_exp < -30 {
-            o.class("signal:subnormal-range");
-        }
-    }
+type InstRef<'a> = (Config, Signal, &'a Inst);
+
+/// round r executes op r-1 of every instance (round 0: construction), each on its assigned thread, all threads
+/// of a round released together by a barrier; returns the instances, the number of rounds with >= 2 busy
+/// threads and the number of thread migrations
+fn scheduled(insts: &[InstRef], nthreads: usize, opts: &HistOpts) -> Result<(Vec<Any>, u64, u64), String> {
     // scheduled run: round r executes op r-1 of every instance (round 0: construction), each on its assigned thread,
     // all threads of a round released together by a barrier
     let mut live: Vec<Any> = insts.iter().map(|(cfg, _, _)| Any::new(cfg.f32)).collect();
@@ -219,10 +191,91 @@ fn run(c: &Case) -> Outcome {
             }
         });
         if let Some(e) = errs.into_inner().unwrap().pop() {
+            return Err(e);
+        }
+    }
+    Ok((live, concurrent_rounds, migrations))
+}
+
+/// `rv sched`: run the schedule of one case in this (fresh) process, nothing else before it; prints one hash
+/// list per instance
+pub fn sched_main() {
+    let mut line = String::new();
+    std::io::stdin().read_line(&mut line).expect("stdin");
+    let c: Case = serde_json::from_str(&line).expect("case json");
+    let opts = HistOpts { envelope: true, record_out: true, quant32: false, stop_on_err: false };
+    let nthreads = (c.n_threads as usize).clamp(1, 16);
+    let insts: Vec<InstRef> = c.instances.iter().map(|i| (i.cfg.sanitized().0, Signal::Noise { seed: i.seed, amp: 10f64.powi(i.amp_exp as i32) }, i)).collect();
+    match scheduled(&insts, nthreads, &opts) {
+        Ok((live, _, _)) => {
+            let v: Vec<Vec<u64>> = live.iter().map(|a| a.digests().iter().map(digest_hash).collect()).collect();
+            println!("{}", serde_json::to_string(&v).unwrap());
+        }
+        Err(e) => println!("ERR {}", e),
+    }
+}
+
+fn sched_in_fresh_process(c: &Case) -> Result<Vec<Vec<u64>>, String> {
+    use std::io::Write;
+    use std::process::{Command, Stdio};
+    let mut child = Command::new(std::env::current_exe().map_err(|e| e.to_string())?).arg("sched").arg("C18").stdin(Stdio::piped()).stdout(Stdio::piped()).stderr(Stdio::null()).spawn().map_err(|e| e.to_string())?;
+    {
+        let mut si = child.stdin.take().unwrap();
+        writeln!(si, "{}", serde_json::to_string(c).unwrap()).map_err(|e| e.to_string())?;
+    }
+    let out = child.wait_with_output().map_err(|e| e.to_string())?;
+    let text = String::from_utf8_lossy(&out.stdout);
+    let line = text.lines().next().unwrap_or("");
+    if line.starts_with("ERR") || line.is_empty() {
+        return Err(format!("scheduled run in a fresh process failed: {} (status {:?})", line, out.status));
+    }
+    serde_json::from_str(line).map_err(|e| e.to_string())
+}
+
+fn run(c: &Case) -> Outcome {
+    let mut o = Outcome::default();
+    let opts = HistOpts { envelope: true, record_out: true, quant32: false, stop_on_err: false };
+    let nthreads = (c.n_threads as usize).clamp(1, 16);
+    let insts: Vec<InstRef> = c.instances.iter().map(|i| (i.cfg.sanitized().0, Signal::Noise { seed: i.seed, amp: 10f64.powi(i.amp_exp as i32) }, i)).collect();
+    o.class(format!("threads:{}", nthreads));
+    o.class(format!("instances:{}", insts.len()));
+    // reference: every instance alone, each on a thread of its own that has done nothing else
+    let mut reference = vec![];
+    for (cfg, sig, inst) in &insts {
+        let r: Result<Vec<Digest>, String> = std::thread::scope(|s| {
+            s.spawn(|| {
+                let mut a = Any::new(cfg.f32);
+                a.construct(cfg, &opts)?;
+                for (i, op) in inst.ops.iter().enumerate() {
+                    a.step(i, op, sig);
+                }
+                Ok(a.digests())
+            })
+            .join()
+            .unwrap_or_else(|_| Err("reference run panicked".to_string()))
+        });
+        match r {
+            Ok(d) => reference.push(d),
+            Err(e) => {
+                o.fail("construct-rejected", e);
+                return o;
+            }
+        }
+        o.class(format!("kind:{}", cfg.kind.name()));
+        if inst.amp_exp < -30 {
+            o.class("signal:subnormal-range");
+        }
+    }
+    // scheduled run: in this worker process (which has already constructed and run resamplers: the references
+    // above and all earlier cases), and for a quarter of the cases also in a pristine process, where the
+    // scheduled run itself is the first use of the library (first-use initialisation raced by several threads)
+    let (live, concurrent_rounds, migrations) = match scheduled(&insts, nthreads, &opts) {
+        Ok(x) => x,
+        Err(e) => {
             o.fail("construct-rejected", e);
             return o;
         }
-    }
+    };
     for (k, a) in live.iter().enumerate() {
         let d = a.digests();
         if d != reference[k] {
@@ -243,6 +296,30 @@ fn run(c: &Case) -> Outcome {
                 format!("instance {} ({}) differs from its single-threaded run at step {:?} when run with {} other instances on {} threads", k, insts[k].0.kind.name(), at, insts.len() - 1, nthreads),
             );
             return o;
+        }
+    }
+    // a quarter of the cases: the same schedule executed in a pristine process must give the same results
+    if crate::engine::fnv(&serde_json::to_string(c).unwrap_or_default()) % 4 == 0 {
+        match sched_in_fresh_process(c) {
+            Ok(v) => {
+                for (k, hs) in v.iter().enumerate() {
+                    let want: Vec<u64> = reference[k].iter().map(digest_hash).collect();
+                    if *hs != want {
+                        let at = hs.iter().zip(&want).position(|(x, y)| x != y);
+                        o.fail(
+                            format!("first-use-dependent:{}", insts[k].0.kind.name()),
+                            format!("instance {} ({}) differs at step {:?} from its single-threaded run when the schedule ({} instances, {} threads) is the first use of the library in a fresh process", k, insts[k].0.kind.name(), at, insts.len(), nthreads),
+                        );
+                        return o;
+                    }
+                }
+                o.class("schedule also executed in a pristine process");
+                o.count("fresh_process_schedules", 1);
+            }
+            Err(e) => {
+                o.fail("harness:sched-run", e);
+                return o;
+            }
         }
     }
     // one instance per case is also compared with a run alone in a pristine process: process-wide state
